@@ -25,7 +25,8 @@ def base_runs(variants, maxcors=(1, 2, 3, 5), small=False):
                                    start=start, minloc=["below", "inside", "above"], var=v,
                                    maxcor=m, label=f"{fam}-{h}-{bl}")
         for fam, n, box in (("rosenbrock", 2, "box"), ("rosenbrock", 4, "box"),
-                            ("styblinski_tang", 3, "box")):
+                            ("styblinski_tang", 3, "box"), ("biglinear", 3, "box"),
+                            ("huber", 3, "free")):
             for m in maxcors:
                 yield dict(kind="nonconvex", fam=fam, n=n, box=box, start="in", var=v,
                            maxcor=m, label=f"{fam}{n}")
